@@ -605,8 +605,9 @@ for en, eq in eqs.items():
     full = {{**sub, target: core}}
     def sides(full):
         # numbers go in as 40-digit floats: an exact rational raised to an exact (huge) power would be expanded digit by digit
-        full = {{k: (sp.Float(v, 40) if sp.sympify(v).is_number and sp.sympify(v).is_real else v) for k, v in full.items()}}
-        repsf = {{k: (sp.Float(v, 40) if sp.sympify(v).is_number and sp.sympify(v).is_real else v) for k, v in reps.items()}}
+        fl = lambda v: sp.N(v, 40) if (sp.sympify(v).is_number and sp.sympify(v).is_real and sp.sympify(v).is_finite) else v
+        full = {{k: fl(v) for k, v in full.items()}}
+        repsf = {{k: fl(v) for k, v in reps.items()}}
         Le = eq.lhs.subs(repsf).subs(full, simultaneous=True); Re = eq.rhs.subs(repsf).subs(full, simultaneous=True)
         scale = sum(abs(sp.N(t.subs(repsf).subs(full, simultaneous=True))) for side in (eq.lhs, eq.rhs) for t in sp.Add.make_args(side))
         return sp.N(Le), sp.N(Re), scale
